@@ -126,3 +126,58 @@ theorem sumOn_append {w : Int → Nat} {L1 L2 : List Int} : sumOn w (L1 ++ L2) =
   | cons x xs ih => simp only [List.cons_append, sumOn, ih]; omega
 
 end SquidModel.Rock
+
+namespace SquidModel.Rock
+
+theorem sumOn_erase {w : Int → Nat} : ∀ {L : List Int} {x : Int}, x ∈ L → sumOn w L = w x + sumOn w (L.erase x) := by
+  intro L
+  induction L with
+  | nil => intro x hx; cases hx
+  | cons y ys ih =>
+    intro x hx
+    by_cases hyx : y = x
+    · subst hyx; simp [sumOn]
+    · have hx' : x ∈ ys := by
+        cases hx with
+        | head => exact absurd rfl hyx
+        | tail _ h => exact h
+      have he : (y :: ys).erase x = y :: ys.erase x := by
+        rw [List.erase_cons]
+        simp [hyx]
+      rw [he]
+      simp only [sumOn]
+      rw [ih hx']
+      omega
+
+/-- two duplicate-free lists with positive weights, one contained in the other, with equal total weight have the same members -/
+theorem subset_of_sum_eq {w : Int → Nat} : ∀ (C L : List Int), C.Nodup → L.Nodup → (∀ x ∈ C, x ∈ L) → (∀ x ∈ L, 0 < w x) →
+    sumOn w C = sumOn w L → ∀ x ∈ L, x ∈ C := by
+  intro C
+  induction C with
+  | nil =>
+    intro L _ _ _ hpos hsum x hx
+    cases L with
+    | nil => cases hx
+    | cons y ys =>
+      have := hpos y (List.mem_cons_self ..)
+      simp only [sumOn] at hsum
+      omega
+  | cons c cs ih =>
+    intro L hndC hndL hsub hpos hsum x hx
+    obtain ⟨hc, hndcs⟩ := List.nodup_cons.1 hndC
+    have hcL : c ∈ L := hsub c (List.mem_cons_self ..)
+    have hsum' : sumOn w cs = sumOn w (L.erase c) := by
+      have := sumOn_erase (w := w) hcL
+      simp only [sumOn] at hsum
+      omega
+    have hsub' : ∀ y ∈ cs, y ∈ L.erase c := by
+      intro y hy
+      have hyc : y ≠ c := fun e => hc (e ▸ hy)
+      exact (List.mem_erase_of_ne hyc).2 (hsub y (List.mem_cons_of_mem _ hy))
+    have hpos' : ∀ y ∈ L.erase c, 0 < w y := fun y hy => hpos y (List.mem_of_mem_erase hy)
+    by_cases hxc : x = c
+    · subst hxc; exact List.mem_cons_self ..
+    · have : x ∈ L.erase c := (List.mem_erase_of_ne hxc).2 hx
+      exact List.mem_cons_of_mem _ (ih (L.erase c) hndcs (hndL.erase c) hsub' hpos' hsum' x this)
+
+end SquidModel.Rock
